@@ -11,4 +11,5 @@ Separate Extraction
   Client.step Client.init Client.owed_unanswered Client.delivered_twice Client.quiescent
   Client.pending_futures Client.ended Client.store_before_send_ok Client.truthful_ok
   Future.session_present Future.return_code Future.return_codes
-  TraceScan.scan_sbs TraceScan.scan_pubrec TraceScan.unresolved.
+  TraceScan.scan_sbs TraceScan.scan_pubrec TraceScan.unresolved
+  TraceScan.hs_step TraceScan.scan_hs TraceScan.hs_twice TraceScan.ack_step TraceScan.scan_ack TraceScan.scan_noack.
